@@ -93,7 +93,7 @@ Definition grp_step (s : list (bytes * kwval) * option bytes * bytes) (it : item
   | None =>
       match key with
       | None => (dset (fst it) (KwStr DEFAULT_VALUE) rtn, key, value)
-      | Some k => (dset (fst it) (KwStr DEFAULT_VALUE) (dset k (KwStr value) rtn), None, [])
+      | Some k => (dset (fst it) (KwStr DEFAULT_VALUE) (kw_add rtn k value), None, [])
       end
   end.
 
@@ -192,18 +192,13 @@ Qed.
 
 Definition pending_key (s : list (bytes * kwval) * option bytes * bytes) : option bytes := snd (fst s).
 
-Lemma grp_inv it p s seen :
+Lemma grp_inv it p s :
   item_wf it ->
-  (forall k, count_key k seen = List.length (vals_of k p)) ->
   Inv p s ->
-  match snd it with
-  | None => match pending_key s with Some pk => Nat.ltb 1 (count_key pk seen) = false | None => True end
-  | Some _ => True
-  end ->
   (forall k, kwonly k (p ++ [it]) = true -> vals_of k (p ++ [it]) = []) ->
   Inv (p ++ [it]) (grp_step s it).
 Proof.
-  intros [[Hkne _] Hv] Hcnt HI Hf3 HG. destruct s as [[rtn key] value]. destruct it as [k [v|]]; cbn [fst snd] in *.
+  intros [[Hkne _] Hv] HI HG. destruct s as [[rtn key] value]. destruct it as [k [v|]]; cbn [fst snd] in *.
   - (* Key=Value *)
     unfold grp_step. cbn [fst snd].
     destruct key as [k0|]; cbn [Inv] in HI |- *.
@@ -223,27 +218,19 @@ Proof.
     { intros k' Hne. rewrite vals_of_app, kwonly_app, vals_of_one, kwonly_one. cbn [fst snd].
       rewrite (beqb_neq_false k k') by congruence. cbn. now rewrite app_nil_r, orb_false_r. }
     assert (kwonly k (p ++ [(k, None)]) = true) as Hkk by (rewrite kwonly_app, kwonly_one; cbn; rewrite beqb_refl; apply orb_true_r).
-    destruct key as [k0|]; cbn [Inv pending_key fst snd] in HI, Hf3 |- *.
-    + destruct HI as [Hne [Hu [p' [Hp Hd]]]].
-      assert (k0 <> k) as Hk0k.
-      { intros ->. pose proof (HG k Hkk) as X. rewrite Hp, !vals_of_app, vals_of_one in X. cbn [fst snd] in X.
-        rewrite beqb_refl in X. destruct (vals_of k p'); discriminate. }
-      assert (vals_of k0 p' = []) as Hv0.
-      { apply Nat.ltb_ge in Hf3. rewrite Hcnt, Hp, vals_of_app, vals_of_one in Hf3. cbn [fst snd] in Hf3.
-        rewrite beqb_refl, app_length in Hf3. cbn in Hf3. destruct (vals_of k0 p'); [reflexivity|cbn in Hf3; lia]. }
-      assert (kwonly k0 (p ++ [(k, None)]) = false) as Hkw0.
-      { destruct (kwonly k0 (p ++ [(k, None)])) eqn:E; [|reflexivity]. exfalso.
-        apply HG in E. rewrite Hp, !vals_of_app, vals_of_one in E. cbn [fst snd] in E. rewrite beqb_refl in E.
+    destruct key as [k0|]; cbn [Inv] in HI |- *.
+    + (* the pending Key=Value is flushed: accumulated like every other value of its key *)
+      destruct HI as [Hne [Hu [p' [Hp Hd]]]].
+      assert (kwonly k0 (p' ++ [(k0, Some value)]) = false) as Hkw0.
+      { destruct (kwonly k0 (p' ++ [(k0, Some value)])) eqn:E; [|reflexivity]. exfalso.
+        assert (kwonly k0 (p ++ [(k, None)]) = true) as X by (rewrite kwonly_app, Hp, E; reflexivity).
+        apply HG in X. rewrite Hp, !vals_of_app, vals_of_one in X. cbn [fst snd] in X. rewrite beqb_refl in X.
         destruct (vals_of k0 p'); discriminate. }
       intros k'. destruct (list_eq_dec ascii_dec k' k) as [->|Hne1].
       * rewrite dget_dset_same, Hkk. reflexivity.
       * rewrite dget_dset_other by congruence.
-        destruct (Hother k' Hne1) as [E1 E2]. rewrite E1, E2.
-        destruct (list_eq_dec ascii_dec k' k0) as [->|Hne2].
-        -- rewrite dget_dset_same. rewrite <- E2, Hkw0. rewrite Hp, vals_of_app, vals_of_one. cbn [fst snd].
-           rewrite beqb_refl, Hv0. reflexivity.
-        -- rewrite dget_dset_other by congruence. rewrite Hd, Hp, vals_of_app, kwonly_app, vals_of_one, kwonly_one. cbn [fst snd].
-           rewrite (beqb_neq_false k0 k') by congruence. cbn. now rewrite app_nil_r, orb_false_r.
+        destruct (Hother k' Hne1) as [E1 E2]. rewrite E1, E2, Hp.
+        apply (flush_pending rtn p' k0 value); assumption.
     + intros k'. destruct (list_eq_dec ascii_dec k' k) as [->|Hne1].
       * rewrite dget_dset_same, Hkk. reflexivity.
       * rewrite dget_dset_other by congruence. destruct (Hother k' Hne1) as [E1 E2]. rewrite E1, E2. apply HI.
@@ -267,42 +254,27 @@ Proof.
   apply H in X. rewrite vals_of_app in X. now apply app_eq_nil in X as [X _].
 Qed.
 
-Lemma group_fold : forall rest p s seen,
+Lemma group_fold : forall rest p s,
   Forall item_wf rest ->
-  (forall k, count_key k seen = List.length (vals_of k p)) ->
   Inv p s ->
-  multi_then_keyword seen (pending_key s) rest = false ->
   valued_only (p ++ rest) ->
   Inv (p ++ rest) (fold_left grp_step rest s).
 Proof.
-  induction rest as [|it rest IH]; intros p s seen Hwf Hcnt HI Hm HG.
+  induction rest as [|it rest IH]; intros p s Hwf HI HG.
   - now rewrite app_nil_r.
   - inversion Hwf as [|? ? Hw1 Hw2]. subst.
     cbn [fold_left]. replace (p ++ it :: rest) with ((p ++ [it]) ++ rest) in * by (now rewrite <- app_assoc).
-    destruct s as [[rtn key] value]. destruct it as [k [v|]]; cbn [multi_then_keyword pending_key fst snd] in Hm.
-    + assert (forall k', count_key k' (k :: seen) = List.length (vals_of k' (p ++ [(k, Some v)]))) as Hc'.
-      { intros k'. rewrite vals_of_app, vals_of_one, app_length. cbn [fst snd count_key]. rewrite Hcnt.
-        destruct (beqb k k'); cbn; lia. }
-      assert (Inv (p ++ [(k, Some v)]) (grp_step (rtn, key, value) (k, Some v))) as HI'.
-      { apply (grp_inv _ _ _ seen); try assumption; [exact I|]. exact (valued_only_prefix _ _ HG). }
-      exact (IH (p ++ [(k, Some v)]) _ (k :: seen) Hw2 Hc' HI' Hm HG).
-    + apply orb_false_iff in Hm as [Hm1 Hm2].
-      assert (forall k', count_key k' seen = List.length (vals_of k' (p ++ [(k, None)]))) as Hc'.
-      { intros k'. rewrite vals_of_app, vals_of_one. cbn [fst snd]. destruct (beqb k k'); rewrite app_nil_r; apply Hcnt. }
-      assert (Inv (p ++ [(k, None)]) (grp_step (rtn, key, value) (k, None))) as HI'.
-      { apply (grp_inv _ _ _ seen); try assumption; [|exact (valued_only_prefix _ _ HG)].
-        cbn [snd pending_key fst]. destruct key; [exact Hm1|exact I]. }
-      refine (IH (p ++ [(k, None)]) _ seen Hw2 Hc' HI' _ HG).
-      unfold grp_step. cbn [fst snd]. destruct key; cbn [pending_key fst snd]; exact Hm2.
+    apply IH; [assumption| |assumption].
+    apply grp_inv; [assumption|assumption|]. exact (valued_only_prefix _ _ HG).
 Qed.
 
 (* the dictionary parse_keywords builds for an event *)
 Theorem event_dict items :
-  Forall item_wf items -> valued_only items -> multi_then_keyword [] None items = false ->
+  Forall item_wf items -> valued_only items ->
   forall k, dget k (parse_keywords_single (event_lines items)) = rep (vals_of k items) (kwonly k items).
 Proof.
-  intros Hwf HG Hm k. rewrite (parse_keywords_items _ Hwf).
-  pose proof (group_fold items [] ([], None, []) [] Hwf (fun _ => eq_refl) (fun _ => eq_refl) Hm HG) as HI.
+  intros Hwf HG k. rewrite (parse_keywords_items _ Hwf).
+  pose proof (group_fold items [] ([], None, []) Hwf (fun _ => eq_refl) HG) as HI.
   cbn [app] in HI. destruct (fold_left grp_step items ([], None, [])) as [[rtn key] value].
   cbn [Inv finish] in *. destruct key as [k0|]; [|apply HI].
   destruct HI as [Hne [Hu [p' [Hp Hd]]]]. destruct k0 as [|c kr]; [congruence|].
@@ -320,28 +292,7 @@ Qed.
 Definition cc_cval (st : mst) (k : bytes) (v0 : kwval) : res cval :=
   let v := pyval_of_kw v0 in
   match dget k (m_parsers st) with
-  | Some (pk, _, il) =>
-      if il then
-        do parsed <- parse pk v;
-        match parsed with
-        | PAtom _ => Oos
-        | PList l =>
-            let l' := if pyval_eq_default_list parsed then
-                        match dget k (m_defaults st) with
-                        | Some (DStr s) => [AStr s]
-                        | Some (DList dl) => map AStr dl
-                        | None => []
-                        end
-                      else l in
-            Ok (CList true l')
-        end
-      else if negb (pyval_is_str v DEFAULT_VALUE) then
-        do parsed <- parse pk v; Ok (cval_of_pyval false parsed)
-      else match dget k (m_defaults st) with
-           | Some (DStr s) => do parsed <- parse pk (PAtom (AStr s)); Ok (cval_of_pyval false parsed)
-           | Some (DList dl) => Oos
-           | None => Ok (cval_of_pyval false v)
-           end
+  | Some ty => conf_changed_value st k ty v
   | None => Ok (cval_of_pyval false v)
   end.
 
@@ -349,8 +300,8 @@ Lemma cc_item st k v0 cv : find_real_name st k = k -> cc_cval st k v0 = Ok cv ->
   conf_changed_item st (k, v0) = Ok (set_config st k cv).
 Proof.
   intros Hfr H. unfold conf_changed_item, cc_cval in *. rewrite Hfr.
-  destruct (dget k (m_parsers st)) as [[[pk vk] il]|]; [|now inversion H].
-  now rewrite H.
+  destruct (dget k (m_parsers st)) as [ty|]; [|now inversion H].
+  cbv zeta in H |- *. now rewrite H.
 Qed.
 
 (* set_config on one key does not change what cc_cval computes for any key *)
@@ -425,7 +376,7 @@ Proof.
   { intros r k v Hr. unfold kw_add. destruct (dget k r) as [[s0|l0]|]; now apply NoDup_keys_dset. }
   destruct (match split_eq1 l with Some (k, v) => if memb SP k then None else Some (k, v) | None => None end) as [[k v]|].
   - cbn [fst]. destruct key as [[|c kr]|]; try assumption. now apply Hadd.
-  - destruct key as [k|]; cbn [fst]; repeat apply NoDup_keys_dset; assumption.
+  - destruct key as [k|]; cbn [fst]; [apply NoDup_keys_dset; now apply Hadd|now apply NoDup_keys_dset].
 Qed.
 
 Lemma parse_keywords_nodup lines : NoDup (map fst (parse_keywords_single lines)).
@@ -437,6 +388,21 @@ Proof.
   unfold kw_add. destruct (dget (c :: kr) rtn) as [[s0|l0]|]; now apply NoDup_keys_dset.
 Qed.
 
+Lemma conf_changed_items_listp : forall kvs st st1, conf_changed_items st kvs = Ok st1 -> m_listp st1 = m_listp st.
+Proof.
+  induction kvs as [|kv kvs IH]; intros st st1 H; cbn [conf_changed_items] in H.
+  - inversion H. reflexivity.
+  - destruct (conf_changed_item st kv) as [s1|k|] eqn:E; cbn [bind] in H; try discriminate.
+    rewrite (IH _ _ H).
+    unfold conf_changed_item in E. destruct kv as [k v0].
+    destruct (dget (find_real_name st k) (m_parsers st)) as [ty|].
+    + match type of E with (match ?r with _ => _ end) = _ => destruct r as [cv|k'|] end.
+      * inversion E. reflexivity.
+      * destruct ((k' =? E_Value) || (k' =? E_Type)); inversion E. reflexivity.
+      * discriminate.
+    + inversion E. reflexivity.
+Qed.
+
 Section EventValue.
   Variable i : cfg_input.
   Let table := i_table i.
@@ -445,7 +411,6 @@ Section EventValue.
   Let ddict := match i_defaults i with None => [] | Some ls => fold_left add_default ls [] end.
   Hypothesis Htab : table_ok table = true.
   Hypothesis Hdfl : defaults_ok opts defaults = true.
-  Hypothesis Hcomma : forall cn d, In (cn, KComma) opts -> In d (default_lines defaults cn) -> memb COMMA d = false.
 
   (* the dictionary entry for values [vals] (non-empty) or for a keyword-only line *)
   Definition kw_of (vals : list bytes) : kwval :=
@@ -461,26 +426,51 @@ Section EventValue.
   Qed.
 
   Lemma event_value st cn k vals :
-    In (cn, k) opts -> k <> KPorts ->
+    In (cn, k) opts ->
     tor_values_ok k vals = true -> (forall v, In v vals -> tor_value_ok v = true) ->
     dget cn (m_parsers st) = Some (ty_of k) -> dget cn (m_defaults st) = dget cn ddict ->
+    mem_bytes cn (m_listp st) = is_list_kind k ->
     exists cv, cc_cval st cn (kw_of vals) = Ok cv /\
       forall st1, dget cn (m_config st1) = Some cv -> dget cn (m_defaults st1) = dget cn ddict ->
                   synced_at defaults st1 vals cn k.
   Proof.
-    intros Hin Hnp Hv Hall HP HD. unfold cc_cval. rewrite HP, (pyval_of_kw_getconf _ Hall).
+    intros Hin Hv Hall HP HD HL. unfold cc_cval. rewrite HP, (pyval_of_kw_getconf _ Hall). unfold conf_changed_value.
+    destruct (kind_eqb k KPorts) eqn:Ekp.
+    { (* a port list: the lines as they are; unset -> the config/defaults lines *)
+      assert (k = KPorts) by (destruct k; try discriminate Ekp; reflexivity). subst k.
+      cbn [ty_of]. rewrite HL. cbn [is_list_kind andb negb].
+      assert (forall d, In d (default_lines defaults cn) -> tor_value_ok d = true) as Hd
+        by (intros d Hi; eapply (defaults_values_ok i Hdfl); eassumption).
+      assert (exists L, aslist (if pyval_is_str (getconf_value vals) DEFAULT_VALUE
+                                then match dget cn (m_defaults st) with Some d => pyval_of_dval d | None => PList [] end
+                                else getconf_value vals) = map AStr L /\
+                        (forall v, In v L -> tor_value_ok v = true) /\
+                        typed_value KPorts vals (default_lines defaults cn) = Some (RList true L)) as [L [HLL [HLok HLty]]].
+      { destruct vals as [|v0 [|v1 vs]].
+        - cbn [getconf_value pyval_is_str]. rewrite beqb_refl, HD. fold ddict. unfold ddict. rewrite (defaults_dict_whole i cn).
+          fold defaults. exists (default_lines defaults cn). split; [|split; [exact Hd|]].
+          + destruct (default_lines defaults cn) as [|d [|d2 t]]; reflexivity.
+          + unfold typed_value. cbn [nonempty_values filter]. now rewrite (map_strip_tor _ Hd).
+        - pose proof (Hall v0 (or_introl eq_refl)) as Hv0.
+          destruct (tor_value_facts _ Hv0) as [Hne [_ [Hnd [Hu _]]]].
+          cbn [getconf_value]. rewrite Hu. cbn [pyval_is_str]. rewrite Hnd.
+          exists [v0]. split; [reflexivity|]. split; [exact Hall|]. apply ports_view; [exact Hall|discriminate].
+        - rewrite (getconf_many _ _ _ Hall). cbn [pyval_is_str aslist].
+          exists (v0 :: v1 :: vs). split; [reflexivity|]. split; [exact Hall|]. apply ports_view; [exact Hall|discriminate]. }
+      rewrite HLL. eexists. split; [reflexivity|]. intros st1 Hc _. eapply ports_lines; eassumption. }
+    assert (k <> KPorts) as Hnp by (intros ->; discriminate Ekp).
     destruct (is_list_kind k) eqn:Elk.
     - assert (k = KLine \/ k = KComma) as Hk by (destruct k; try discriminate Elk; try congruence; auto).
       assert (ty_of k = (pk_of k, vk_of k, true)) as Hty by (destruct Hk as [-> | ->]; reflexivity).
-      rewrite Hty.
-      destruct (boot_list i Hdfl Hcomma st cn k vals Hin Hk Hv) as [l [Hp _]].
-      rewrite Hp. cbn [bind]. rewrite HD. fold ddict. fold (dfl_atoms i cn).
+      rewrite Hty. cbn [negb]. rewrite andb_false_r.
+      destruct (boot_list i Hdfl st cn k vals Hin Hk Hv) as [l [l' [Hp [Hl' _]]]].
+      rewrite Hp. cbn [bind]. rewrite HD. unfold ddict. rewrite Hl'. cbn [bind].
       eexists. split; [reflexivity|]. intros st1 Hc _.
-      destruct (boot_list i Hdfl Hcomma st1 cn k vals Hin Hk Hv) as [l1 [Hp1 Hs]].
-      rewrite Hp in Hp1. inversion Hp1. subst l1. now apply Hs.
+      destruct (boot_list i Hdfl st1 cn k vals Hin Hk Hv) as [l1 [l1' [Hp1 [Hl1' Hs]]]].
+      rewrite Hp in Hp1. inversion Hp1. subst l1. rewrite Hl' in Hl1'. inversion Hl1'. subst l1'. now apply Hs.
     - assert (ty_of k = (pk_of k, vk_of k, false)) as Hty by (destruct k; try discriminate Elk; try congruence; reflexivity).
-      rewrite Hty.
-      destruct (boot_scalar i Hdfl Hcomma st cn k vals Hin Elk Hv (fun v Hi => or_intror (Hall v Hi))) as [parsed [Hp _]].
+      rewrite Hty, HL. cbn [andb].
+      destruct (boot_scalar i Hdfl st cn k vals Hin Elk Hv (fun v Hi => or_intror (Hall v Hi))) as [parsed [Hp _]].
       assert (exists cv,
                 (if negb (pyval_is_str (getconf_value vals) DEFAULT_VALUE)
                  then do parsed0 <- parse (pk_of k) (getconf_value vals); Ok (cval_of_pyval false parsed0)
@@ -504,7 +494,7 @@ Section EventValue.
           rewrite Hp. cbn [bind]. eauto.
         - cbn [getconf_value pyval_is_str orb negb] in Hp |- *. rewrite Hp. cbn [bind]. eauto. }
       exists (cval_of_pyval false parsed). split; [exact Hcv|]. intros st1 Hc Hd1.
-      destruct (boot_scalar i Hdfl Hcomma st1 cn k vals Hin Elk Hv (fun v Hi => or_intror (Hall v Hi))) as [parsed1 [Hp1 Hs]].
+      destruct (boot_scalar i Hdfl st1 cn k vals Hin Elk Hv (fun v Hi => or_intror (Hall v Hi))) as [parsed1 [Hp1 Hs]].
       rewrite Hp in Hp1. inversion Hp1. subst parsed1. now apply Hs.
   Qed.
 End EventValue.
@@ -524,7 +514,6 @@ Section EventSim.
   Let ddict := match i_defaults i with None => [] | Some ls => fold_left add_default ls [] end.
   Hypothesis Htab : table_ok table = true.
   Hypothesis Hdfl : defaults_ok opts defaults = true.
-  Hypothesis Hcomma : forall cn d, In (cn, KComma) opts -> In d (default_lines defaults cn) -> memb COMMA d = false.
   Variable names : list bytes.
   Hypothesis names_eq : names = map fst opts.
 
@@ -595,12 +584,10 @@ Section EventSim.
 
   Lemma sim_event st m items st' ob :
     Rel opts defaults st m -> op_ok opts (OpEvent items) = true ->
-    (forall it, In it items -> ~ In (fst it, KPorts) opts) ->
-    multi_then_keyword [] None items = false ->
     m_step names st (OpEvent items) = Some (st', ob) ->
     step_ok opts defaults st m (OpEvent items) st' ob.
   Proof.
-    intros R Hok Hnp Hm H. cbn [op_ok] in Hok. apply andb_true_iff in Hok as [_ Hitems].
+    intros R Hok H. cbn [op_ok] in Hok. apply andb_true_iff in Hok as [_ Hitems].
     assert (forall it, In it items -> exists k, In (fst it, k) opts) as Hkeys
       by (intros it Hi; destruct (item_facts _ _ Hitems Hi) as [k [Hk _]]; eauto).
     assert (forall it v, In it items -> snd it = Some v -> tor_value_ok v = true) as Hvals.
@@ -617,13 +604,13 @@ Section EventSim.
       apply beqb_eq in Hb1. subst k. destruct (snd it) eqn:E; [discriminate|].
       destruct (item_facts _ _ Hitems Hi) as [k [Hk [X _]]]. rewrite E in X.
       rewrite <- (Hvv (fst it) (in_map fst _ _ Hi) k Hk). exact X. }
-    pose proof (event_dict items Hwf Hvo Hm) as Hdict.
+    pose proof (event_dict items Hwf Hvo) as Hdict.
     set (d := parse_keywords_single (event_lines items)) in *.
     pose proof (parse_keywords_nodup (event_lines items)) as Hdn. fold d in Hdn.
     (* every dictionary entry is an announced option with a computable value *)
     assert (forall k kw, In (k, kw) d ->
               In k (map fst items) /\ kw = kw_of (vals_of k items) /\
-              exists kind, In (k, kind) opts /\ kind <> KPorts /\
+              exists kind, In (k, kind) opts /\
                            tor_values_ok kind (vals_of k items) = true /\
                            (forall v, In v (vals_of k items) -> tor_value_ok v = true)) as Hentry.
     { intros k kw Hin. pose proof (dget_first _ _ _ Hdn Hin) as Hg. rewrite Hdict in Hg.
@@ -638,18 +625,19 @@ Section EventSim.
       - unfold rep in Hg. destruct (kwonly k items) eqn:Ek.
         + rewrite (Hvo k Ek). now inversion Hg.
         + destruct (vals_of k items) as [|v0 [|v1 vs]]; inversion Hg; reflexivity.
-      - exists kind. split; [assumption|]. split; [intros ->; eapply Hnp; [exact Hi|]; now rewrite Hfi|]. split; [assumption|].
+      - exists kind. split; [assumption|]. split; [assumption|].
         intros v Hv. unfold vals_of in Hv. apply in_concat in Hv as [b [Hb Hv]]. apply in_map_iff in Hb as [it2 [<- Hi2]].
         destruct (beqb (fst it2) k); [|destruct Hv]. destruct (snd it2) as [v2|] eqn:E2; [|destruct Hv].
         destruct Hv as [<-|[]]. eapply Hvals; eassumption. }
-    destruct (r_clean _ _ _ _ R) as [C1 [C2 C3]].
+    destruct (r_clean _ _ _ _ R) as [C1 C3].
     (* run the handler *)
     destruct (cc_items_effect d st Hdn) as [s1 [Ecc [HP [HD [HA [HB [HU [HK HM]]]]]]]].
-    { intros k kw Hin. destruct (Hentry k kw Hin) as [Hki [-> [kind [Hk [Hnk [Htv Hall]]]]]].
+    { intros k kw Hin. destruct (Hentry k kw Hin) as [Hki [-> [kind [Hk [Htv Hall]]]]].
       split; [eapply find_real_name_canon; eassumption|]. split; [exact (r_cfg _ _ _ _ R _ _ Hk)|].
-      destruct (event_value i Hdfl Hcomma st k kind (vals_of k items) Hk Hnk Htv Hall
+      destruct (event_value i Hdfl st k kind (vals_of k items) Hk Htv Hall
                             (r_ptys _ _ _ _ R _ _ Hk)) as [cv [Hcv _]].
       { rewrite (r_dfl _ _ _ _ R _ _ Hk). symmetry. apply defaults_dict_whole. }
+      { exact (r_listp _ _ _ _ R _ _ Hk). }
       eauto. }
     assert (forall k, In k (map fst d) <-> In k (map fst items)) as Hdk.
     { intros k. split.
@@ -686,7 +674,7 @@ Section EventSim.
           with (existsb (fun e : entry => beqb (fst e) cn) items).
         destruct (existsb (fun e : entry => beqb (fst e) cn) items) eqn:Ee; [|reflexivity].
         apply Hvv with (k := k); [|assumption]. now apply Hex. }
-      destruct R as [R1 R2 R3 R4 R5 R6 R7 R9 R8].
+      destruct R as [R1 R2 R3 R4 R5 R6 R7 R9 R8 R10].
       constructor.
       - rewrite HP. exact R1.
       - intros cn k Hin. rewrite HP. now apply R2.
@@ -699,11 +687,12 @@ Section EventSim.
         + split.
           * rewrite (HU cn (proj2 (Hdk cn) Hi)), Hu. reflexivity.
           * destruct (dget_in_keys _ _ (proj2 (Hdk cn) Hi)) as [kw Hg].
-            destruct (Hentry cn kw (dget_In _ _ _ Hg)) as [_ [-> [kind [Hk [Hnk [Htv Hall]]]]]].
+            destruct (Hentry cn kw (dget_In _ _ _ Hg)) as [_ [-> [kind [Hk [Htv Hall]]]]].
             assert (kind = k) by (eapply opts_kind_unique; eassumption). subst kind.
             destruct (HA cn _ (dget_In _ _ _ Hg)) as [cv [Hcv Hc1]].
-            destruct (event_value i Hdfl Hcomma st cn k (vals_of cn items) Hk Hnk Htv Hall (R2 _ _ Hk)) as [cv' [Hcv' Hsy]].
+            destruct (event_value i Hdfl st cn k (vals_of cn items) Hk Htv Hall (R2 _ _ Hk)) as [cv' [Hcv' Hsy]].
             { rewrite (R4 _ _ Hk). symmetry. apply defaults_dict_whole. }
+            { exact (R10 _ _ Hk). }
             rewrite Hcv in Hcv'. inversion Hcv'. subst cv'.
             unfold synced. rewrite (Hstore cn k Hin), (proj2 (Hex cn) Hi).
             apply Hsy; [assumption|]. rewrite HD, (R4 _ _ Hk). symmetry. apply defaults_dict_whole.
@@ -736,7 +725,8 @@ Section EventSim.
             exfalso. apply Hi. now apply Hex.
       - rewrite HK. exact R7.
       - rewrite HK. exact R9.
-      - unfold m'. cbn [mon_step m_f1 m_f2 m_f3]. exact R8. }
+      - unfold m'. cbn [mon_step m_f1 m_f3]. exact R8.
+      - intros cn k Hin. rewrite (conf_changed_items_listp _ _ _ Ecc). now apply R10. }
     destruct (snapshot_sim opts defaults Hnd s1 m' opts R' (fun c k0 Hc => Hc)) as [snap [Hs Hok']].
     rewrite <- names_eq in Hs. rewrite Hs in H. inversion H. subst st' ob. clear H.
     split; [|exact R'].
